@@ -6,4 +6,4 @@ Extraction "extracted/c17_model.ml"
   remove_star_simplex contract_edge contains link_condition num_connected_components has_edge contains_vertex
   remove_edge blk act edg slots mkC sort_set
   spec_empty spec_add_vertex spec_add_edge spec_add_edge_fill spec_add_simplex spec_remove_star spec_contract
-  spec_vertices spec_blockers spec_link_condition spec_closed kmem betti euler dim.
+  spec_link build_link link_contains spec_vertices spec_blockers spec_link_condition spec_closed kmem betti euler dim.
